@@ -15,6 +15,8 @@
 (*        <<u, l, coef>>; an unused entry is the empty sequence.           *)
 (* The lattice of the SPEC (SpinLattice.LatticeOf) decides the neighbour   *)
 (* classes; the expected operator is the documented sum over them.         *)
+(*  kind "emit": like "ham" without an operator: the expected operator is  *)
+(*     printed as exact terms (used by the harness for the float bridge)   *)
 (* Verdicts (printed for EVERY record): "ok"; "ok:rank-gap" (the finite    *)
 (* lattice does not realise all of d_1..d_K: only the realised prefix is   *)
 (* compared); "skip:..." for inputs outside the documented domain (a site  *)
@@ -51,19 +53,30 @@ Expected(r, lat) == LET n == lat.n  p == r.par IN Bind(EdgeSeq(lat, r.K), LAMBDA
      [] r.model = "emery" -> TermsImage(r.map, HopTerms(es, p.J, p.Jm) \o CoulombTerms(n, p.U) \o InterTerms(es, p.V, p.Vm), 2 * n)
      [] r.model = "haldane" -> TermsImage(r.map, HaldaneTerms(es, p.J, p.Jm, p.T2, p.T2m, p.ph, p.phm), 2 * n))
 WFTerms(ts, n) == \A k \in DOMAIN ts : Len(ts[k].w) = n /\ \A i \in 1..n : ts[k].w[i] \in 0..3
+\* inputs outside the documented domain: "" when the record is decided
+SkipOf(r, lat) ==
+   IF r.model \in NeedsLattice /\ lat.loops THEN "skip:self-image"
+   ELSE IF r.model \in NeedsLattice /\ SolidPrefix(lat, r.K) < r.K /\ ImplBeyond(r, SolidPrefix(lat, r.K)) THEN "skip:rank-gap"
+   ELSE IF UsesMatrix(r) /\ Overlap(lat, r.K) THEN "skip:overlap"
+   ELSE ""
 HamVerdict(r, lat) ==
    IF ~r.exact THEN "inexact-coefficient"
    ELSE IF r.nsites # lat.n THEN "sites-differ"
    ELSE IF r.nq # (IF r.model \in Fermionic THEN 2 * lat.n ELSE lat.n) \/ ~WFTerms(r.ham, r.nq) THEN "malformed-output"
-   ELSE IF r.model \in NeedsLattice /\ lat.loops THEN "skip:self-image"
-   ELSE IF r.model \in NeedsLattice /\ SolidPrefix(lat, r.K) < r.K /\ ImplBeyond(r, SolidPrefix(lat, r.K)) THEN "skip:rank-gap"
-   ELSE IF UsesMatrix(r) /\ Overlap(lat, r.K) THEN "skip:overlap"
+   ELSE IF SkipOf(r, lat) # "" THEN SkipOf(r, lat)
    ELSE Bind(SFromTermsL(r.ham), LAMBDA O :
         IF ~SIsHermitian(O) THEN "not-hermitian"
         ELSE IF SEq(O, Expected(r, lat)) THEN "ok" ELSE "hamiltonian-differs")
-Verdict(r) == Bind(LatticeOf(r.sh, r.nc, r.bc, r.K), LAMBDA lat :
-   IF r.kind = "lattice" THEN LatVerdict(r, lat) ELSE HamVerdict(r, lat))
+\* kind "emit": no operator is validated, the expected operator is printed (float bridge: Haldane model at a general phase,
+\* assembled by the harness from the exact operators at phi = 0, pi/2, pi)
+EmitVerdict(r, lat) == IF r.nsites # lat.n THEN "sites-differ" ELSE IF SkipOf(r, lat) # "" THEN SkipOf(r, lat) ELSE "emitted"
+Result(r) == Bind(LatticeOf(r.sh, r.nc, r.bc, r.K), LAMBDA lat :
+   IF r.kind = "lattice" THEN [v |-> LatVerdict(r, lat), e |-> SZero]
+   ELSE IF r.kind = "emit" THEN Bind(EmitVerdict(r, lat), LAMBDA v : [v |-> v, e |-> IF v = "emitted" THEN Expected(r, lat) ELSE SZero])
+   ELSE [v |-> HamVerdict(r, lat), e |-> SZero])
 Check == /\ ~done /\ done' = TRUE /\ UNCHANGED tid
-         /\ PrintT(<<"V", tid, Verdict(Traces[tid])>>)
+         /\ \E res \in {Result(Traces[tid])} :
+               /\ PrintT(<<"V", tid, res.v>>)
+               /\ (IF res.v = "emitted" THEN PrintT(ToJson([tid |-> tid, terms |-> STermsL(res.e)])) ELSE TRUE)
 Next == Check
 =============================================================================
